@@ -28,8 +28,14 @@ class _Roles(dict):
 ROLE = {}
 
 
+_CRATE = [None]
+
+
 def fn(name):
-    return ROLE.get(name, J + name)
+    if name in ROLE:
+        return ROLE[name]
+    from .. import sq
+    return sq.find_method(_CRATE[0], J + name, "JitterRng", name)  # public methods may live in an impl block of another module
 
 
 def role_seq(calls):
@@ -69,11 +75,12 @@ def run(chk, tier):
     g = Gen(crate, "JitterRng")
     ROLE.clear()
     ROLE.update(jitter_roles(crate))
+    _CRATE[0] = crate
     iD = find_field(g.adt, "data", "u64")
     iR = find_field(g.adt, "rounds", "u8")
     iM = find_field(g.adt, "mem_prev_index", "u16")
     try:
-        iH = field_index(g.adt, "data_half_used")  # only used for the constructor's initial values; the half bookkeeping is C16's
+        iH = find_field(g.adt, "data_half_used", "bool")  # only used for the constructor's initial values; the half bookkeeping is C16's
     except Anchor:
         iH = None
     nob = 0
